@@ -27,6 +27,10 @@ static Obj *mkobj (int kind, int k) {
 	objs[nobjs] = o; shadow[nobjs] = *o; nobjs++;
 	return o;
 }
+/* every second tree uses the NULL pointer as the key object of key 1 (a handle like any other: the library never looks into keys).  Its
+ * incarnations get ids like objects do; nullk_cur is the id of the one that is stored right now (0 = none). */
+static int nullmode, nullk_cur;
+#define KOF(p) ((p) ? ((const Obj *) (p))->k : 1)
 /* notifiers may be handed anything by a faulty library: only pointers to objects this driver made are looked into (-2 = unknown pointer) */
 static Obj *known (ppointer p) { int i; for (i = nobjs - 1; i >= 0; i--) if (objs[i] == p) return p; return NULL; }
 /* the library's allocator (p_mem_set_vtable): a released block is overwritten before it goes back to the C library, as a debugging
@@ -35,7 +39,7 @@ typedef struct { size_t n; size_t pad; } PHdr;
 static ppointer pz_malloc (psize n) { PHdr *h = malloc (sizeof (PHdr) + n); if (!h) return NULL; h->n = n; return h + 1; }
 static void pz_free (ppointer p) { PHdr *h; if (!p) return; h = (PHdr *) p - 1; memset (p, 0xA5, h->n); free (h); }
 static ppointer pz_realloc (ppointer p, psize n) { ppointer q; if (!p) return pz_malloc (n); q = pz_malloc (n); if (!q) return NULL; memcpy (q, p, ((PHdr *) p - 1)->n < n ? ((PHdr *) p - 1)->n : n); pz_free (p); return q; }
-static void kdestroy (ppointer p) { Obj *o = p; if (p && !known (p)) { if (ndlog < 4096) { dlog[ndlog][0] = 'K'; dlog[ndlog][1] = -2; ndlog++; } return; } if (ndlog < 4096) { dlog[ndlog][0] = 'K'; dlog[ndlog][1] = o ? o->id : -1; ndlog++; } if (o) o->destroyed++; }
+static void kdestroy (ppointer p) { Obj *o = p; if (!p && nullmode) { if (ndlog < 4096) { dlog[ndlog][0] = 'K'; dlog[ndlog][1] = nullk_cur ? nullk_cur : -3; ndlog++; } nullk_cur = 0; return; } if (p && !known (p)) { if (ndlog < 4096) { dlog[ndlog][0] = 'K'; dlog[ndlog][1] = -2; ndlog++; } return; } if (ndlog < 4096) { dlog[ndlog][0] = 'K'; dlog[ndlog][1] = o ? o->id : -1; ndlog++; } if (o) { int i; o->destroyed++; /* a destroyed key is dead: whoever still compares with it gets nonsense */ for (i = nobjs - 1; i >= 0; i--) if (objs[i] == o) { o->k = shadow[i].k = -7; break; } } }
 /* a value object that is inserted again while it is stored (op insv) counts as a new insertion with an id of its own: a notification that arrives
  * during that insert call is for the stored (previous) incarnation */
 static void vdestroy (ppointer p) { Obj *o = p; int id; if (p && !known (p)) { if (ndlog < 4096) { dlog[ndlog][0] = 'V'; dlog[ndlog][1] = -2; ndlog++; } return; } id = o ? o->id : -1; if (o && o->reins) { id = o->prev_id; o->reins = 0; } if (ndlog < 4096) { dlog[ndlog][0] = 'V'; dlog[ndlog][1] = id; ndlog++; } if (o) o->destroyed++; }
@@ -47,14 +51,14 @@ static pint cmp_data (pconstpointer a, pconstpointer b, ppointer data) {
 	const Obj *x = a, *y = b;
 	if (wd ? data != &cookie : data != NULL) data_bad = 1;
 	ncmp++;
-	if (rec_on && npath < 256) path[npath++] = y->k;
-	return cres (x->k, y->k);
+	if (rec_on && npath < 256) path[npath++] = KOF (y);
+	return cres (KOF (x), KOF (y));
 }
 static pint cmp_plain (pconstpointer a, pconstpointer b) {
 	const Obj *x = a, *y = b;
 	ncmp++;
-	if (rec_on && npath < 256) path[npath++] = y->k;
-	return cres (x->k, y->k);
+	if (rec_on && npath < 256) path[npath++] = KOF (y);
+	return cres (KOF (x), KOF (y));
 }
 static int intact (void) {
 	int i;
@@ -78,7 +82,7 @@ static pboolean trav (ppointer key, ppointer value, ppointer ud) {
 	Obj *k = key, *v = value;
 	(void) ud;
 	if (tr_cnt == tr_cap) { tr_cap = tr_cap ? tr_cap * 2 : 1024; tr_buf = realloc (tr_buf, tr_cap * sizeof (*tr_buf)); }
-	tr_buf[tr_cnt][0] = k->k; tr_buf[tr_cnt][1] = k->id; tr_buf[tr_cnt][2] = v ? v->id : 0;
+	tr_buf[tr_cnt][0] = k ? k->k : 1; tr_buf[tr_cnt][1] = k ? k->id : nullk_cur; tr_buf[tr_cnt][2] = v ? v->id : 0;
 	tr_cnt++;
 	return (tr_stop_at > 0 && tr_cnt >= tr_stop_at) ? TRUE : FALSE;
 }
@@ -91,13 +95,13 @@ static void emit_seq (const char *name) {
 /* shape from lookup paths: child links */
 static int lch[64], rch[64], root_k;
 static void emit_shape (int k) {
-	if (k == 0) { VT ("[]"); return; }
+	if (k <= 0 || k >= 64) { VT (k == 0 ? "[]" : "[[],%d,[]]", k); return; }      /* (keys outside the universe only appear when the library misbehaves) */
 	VT ("["); emit_shape (lch[k]); VT (",%d,", k); emit_shape (rch[k]); VT ("]");
 }
 static int lookup_id (int k) {
 	Obj probe; Obj *v;
 	probe.magic = MAGIC; probe.k = k; probe.id = 0;
-	v = p_tree_lookup (tree, &probe);
+	v = p_tree_lookup (tree, nullmode && k == 1 ? NULL : &probe);
 	return v ? v->id : 0;
 }
 
@@ -120,47 +124,51 @@ int main (int argc, char **argv) {
 			vt_emit ("{\"e\":\"Reset\"}");
 		}
 		else if (!strcmp (op, "new")) {
-			ty = a; nf = b; wd = c; cstyle = ntrees++ % 3;
+			ty = a; nf = b; wd = c; cstyle = ntrees % 3; nullmode = ntrees % 2 == 1; nullk_cur = 0; ntrees++;
 			/* nf: 0 no notifiers, 1 both, 2 key only, 3 value only */
 			if (nf) tree = p_tree_new_full ((PTreeType) ty, cmp_data, wd ? &cookie : NULL, nf == 3 ? NULL : kdestroy, nf == 2 ? NULL : vdestroy);
 			else if (wd) tree = p_tree_new_with_data ((PTreeType) ty, cmp_data, &cookie);
 			else tree = p_tree_new ((PTreeType) ty, cmp_plain);
 			if (!tree) vt_die ("p_tree_new failed");
-			vt_emit ("{\"e\":\"new\",\"ty\":%d,\"nf\":%d}", (int) p_tree_get_type (tree), nf);
+			vt_emit ("{\"e\":\"new\",\"ty\":%d,\"nf\":%d,\"nullkey\":%d,\"cmp\":%d}", (int) p_tree_get_type (tree), nf, nullmode, cstyle);
 		}
 		else if (!strcmp (op, "ins")) {
-			Obj *k = mkobj ('K', a), *v = mkobj ('V', a);
+			int nk = nullmode && a == 1, kid; Obj *k = nk ? NULL : mkobj ('K', a), *v = mkobj ('V', a);
+			kid = nk ? next_id++ : k->id;
 			p_tree_insert (tree, k, v);
-			VT ("{\"e\":\"ins\",\"k\":%d,\"kid\":%d,\"vid\":%d,\"n\":%d,", a, k->id, v->id, (int) p_tree_get_nnodes (tree));
+			if (nk) nullk_cur = kid;
+			VT ("{\"e\":\"ins\",\"k\":%d,\"kid\":%d,\"vid\":%d,\"n\":%d,", a, kid, v->id, (int) p_tree_get_nnodes (tree));
 			emit_d (); VT ("}"); VT_END ();
 		}
 		else if (!strcmp (op, "insv")) {        /* insert with a new key object and the value object that is stored under that key right now */
-			Obj probe, *k, *v; int i;
+			Obj probe, *k, *v; int i, nk = nullmode && a == 1, kid;
 			probe.magic = MAGIC; probe.k = a; probe.id = 0;
-			v = p_tree_lookup (tree, &probe);
-			k = mkobj ('K', a);
+			v = p_tree_lookup (tree, nk ? NULL : &probe);
+			k = nk ? NULL : mkobj ('K', a); kid = nk ? next_id++ : k->id;
 			if (!v) v = mkobj ('V', a);
 			else { v->prev_id = v->id; v->id = next_id++; v->reins = 1; for (i = 0; i < nobjs; i++) if (objs[i] == v) shadow[i].id = v->id; }
 			p_tree_insert (tree, k, v);
+			if (nk) nullk_cur = kid;
 			if (v->reins) v->reins = 0; else if (v->prev_id && v->destroyed) v->destroyed--;      /* the new incarnation is alive */
 			for (i = 0; i < nobjs; i++) if (objs[i] == v) shadow[i] = *v;
-			VT ("{\"e\":\"ins\",\"k\":%d,\"kid\":%d,\"vid\":%d,\"n\":%d,", a, k->id, v->id, (int) p_tree_get_nnodes (tree));
+			VT ("{\"e\":\"ins\",\"k\":%d,\"kid\":%d,\"vid\":%d,\"n\":%d,", a, kid, v->id, (int) p_tree_get_nnodes (tree));
 			emit_d (); VT ("}"); VT_END ();
 		}
 		else if (!strcmp (op, "rem")) {
 			Obj probe; pboolean r;
 			probe.magic = MAGIC; probe.k = a; probe.id = 0;
-			r = p_tree_remove (tree, &probe);
+			r = p_tree_remove (tree, nullmode && a == 1 ? NULL : &probe);
+			if (r && nullmode && a == 1) nullk_cur = 0;
 			VT ("{\"e\":\"rem\",\"k\":%d,\"res\":%d,\"n\":%d,", a, r ? 1 : 0, (int) p_tree_get_nnodes (tree));
 			emit_d (); VT ("}"); VT_END ();
 		}
 		else if (!strcmp (op, "clr")) {
-			p_tree_clear (tree);
+			p_tree_clear (tree); nullk_cur = 0;
 			VT ("{\"e\":\"clr\",\"n\":%d,", (int) p_tree_get_nnodes (tree));
 			emit_d (); VT ("}"); VT_END ();
 		}
 		else if (!strcmp (op, "fre")) {
-			p_tree_free (tree); tree = NULL;
+			p_tree_free (tree); tree = NULL; nullk_cur = 0;
 			VT ("{\"e\":\"fre\","); emit_d (); VT ("}"); VT_END ();
 		}
 		else if (!strcmp (op, "obs")) {
